@@ -79,6 +79,25 @@ def run(ctx):
             shared = isinstance(tnode, (ast.Name, ast.Attribute, ast.Subscript))  # a display / call creates a dictionary nobody else can see
             ok = shared and any(x == table or x == root for x in args)
             ctx.check("C12.R1", f"{f.qualname}: {worker} receives the name table filled by the parse ({table})", ok, f.where(wc), f"{f.qualname}: parse into {table} but {worker}({', '.join(args)[:80]})", "the worker resolves references in a different dictionary than the one the parse filled (e.g. the schema's private __named_schemas copy): references defined in separately parsed pieces are lost")
+    # what is parsed is the schema as it was given: an entry point that rewrites its schema argument first (decodes text,
+    # normalises, copies selectively) gives the raw and the parsed form of one schema different meanings
+    SCHEMA_PARAMS = dict((fid, [pr for pr, _ in pairs]) for fid, pairs in ENTRIES.items())
+    SCHEMA_PARAMS.update({"json_read:json_reader": ["schema", "reader_schema"], "json_write:json_writer": ["schema"], "_write_py:writer": ["schema"], "_read_py:reader.__init__": ["reader_schema"], "_read_py:block_reader.__init__": ["reader_schema"]})
+    for fid, prs in sorted(SCHEMA_PARAMS.items()):
+        f = p.maybe_func(fid)
+        if f is None:
+            continue
+        for pr in prs:
+            if pr not in f.params:
+                continue
+            bad = []
+            for n in walk_local(f.node):
+                if isinstance(n, ast.Assign) and any(isinstance(t, ast.Name) and t.id == pr for t in n.targets):
+                    v = n.value
+                    fine = (isinstance(v, ast.Constant) and v.value is None) or (isinstance(v, ast.Call) and isinstance(v.func, ast.Name) and v.func.id in ("parse_schema", "match_schemas", "load_schema", "expand_schema") and any(isinstance(x, ast.Name) and x.id == pr for x in ast.walk(v))) or (isinstance(v, ast.Name) and v.id == pr)
+                    if not fine:
+                        bad.append(n)
+            ctx.check("C12.R1", f"{f.qualname}: `{pr}` is parsed as it was given", not bad, f.where(bad[0]) if bad else f.where(), f"{f.qualname}: {norm(bad[0])[:90]}" if bad else "", f"the schema argument `{pr}` is replaced before it is parsed: the raw form then denotes another schema than the one the caller wrote (a type name that happens to be JSON text, a stripped attribute)")
     # the table a parsed schema carries along is the very table the parse filled (complete: a definition in it may refer
     # to further separately parsed types that only the complete table knows)
     psf = p.func("_schema_py:_parse_schema")
